@@ -405,8 +405,8 @@ def main():
     run = Run(PID, a.tier)
     thorough = a.tier == "thorough"
     sgs = ["sg13"] + (["sg7", "sg199"] if thorough else [])
-    prods = ["prod-san", "cfg-int64-noasm-w8-c22", "prod-verify"] + (
-        ["cfg-i128struct-noasm-w2-c2", "cfg-i128-noasm-w8-c2", "cfg-i128struct-asm-w15", "cfg-int64-san-w15",
+    prods = ["prod-san", "cfg-int64-noasm-w8-c22", "prod-verify", "cfg-i128struct-noasm-w2-c2"] + (
+        ["cfg-i128-noasm-w8-c2", "cfg-i128struct-asm-w15", "cfg-int64-san-w15",
          "cfg-int64-noasm-w2-c86-clang", "cfg-i128-noasm-w5-c22-clang"] if thorough else [])
     B.build_many(sgs + [s + "-verify" for s in sgs] + prods)
     for b in sgs + prods:
